@@ -503,7 +503,98 @@ def run_case(case):
     return res
 
 
+# ---------------------------------------------------------------------------------------------------------------------------------
+# grid objects with a history: the SAME grid objects serve several compositions one after the other in one process, and their public
+# data_location setter is used in between. Every link attempt must end like the same attempt on freshly built grid objects in the same
+# described state (differential oracle: state reached through a history vs. state built directly), and must obey the location rule.
+POOL = ("A", "B", "R")  # two equal uniform grids and the same geometry as a rectilinear grid
+
+
+def pool_grid(name, loc):
+    if name == "R":
+        return fm.RectilinearGrid([np.arange(4, dtype=float), np.arange(5, dtype=float)], data_location=loc)
+    return fm.UniformGrid((4, 5), data_location=loc)
+
+
+def hist_events():
+    ev = [("loc", g) for g in POOL]
+    for kind in ("direct", "scale", "regrid"):
+        ev += [(kind, a, b) for a in POOL for b in POOL if a != b]
+    return ev
+
+
+def hist_link(kind, gp, gc):
+    """one composition on the given grid objects; returns (outcome, shape of the data the consumer got while connecting)"""
+    from datetime import timedelta
+
+    got = []
+    try:
+        src = fm.components.CallbackGenerator(callbacks={"Out": (lambda t: np.arange(float(np.prod(gp.data_shape))).reshape(gp.data_shape, order=gp.order), fm.Info(None, grid=gp, units="m"))}, start=T0, step=timedelta(hours=1))
+        if kind == "regrid":
+            out_grid = fm.UniformGrid((3, 3))
+            ad = D.RegridNearest(in_grid=gc, out_grid=out_grid)
+            cgrid = out_grid
+        else:
+            ad = D.Scale(1.0) if kind == "scale" else None
+            cgrid = gc
+        con = fm.components.DebugConsumer(inputs={"In": fm.Info(None, grid=cgrid, units="m")}, callbacks={"In": lambda _n, d, _t: got.append(tuple(np.shape(d)))}, start=T0, step=timedelta(hours=1))
+        comp = compose([src, con])
+        if ad is None:
+            src.outputs["Out"] >> con.inputs["In"]
+        else:
+            src.outputs["Out"] >> ad >> con.inputs["In"]
+        comp.connect(T0)
+        return ("ok", got[0] if got else None)
+    except E.FinamMetaDataError:
+        return ("meta", None)
+    except Exception as e:  # noqa
+        return ("exc:" + type(e).__name__, None)
+
+
+def run_hist(case):
+    res = dict(n=0, nontrivial=0, counters={}, violations=[])
+    cnt = res["counters"]
+    events = hist_events()
+    fresh_memo = {}
+    tails = [tuple(case["only"])] if "only" in case else itertools.product(range(len(events)), repeat=case["depth"] - 1)
+    for tail in tails:
+        seq = [events[case["first"]]] + [events[i] for i in tail]
+        if seq[-1][0] == "loc":
+            continue  # histories are judged at their link attempts; every prefix ending in one is a history of its own
+        locs = {g: "CELLS" for g in POOL}
+        objs = {g: pool_grid(g, "CELLS") for g in POOL}
+        for k, ev in enumerate(seq):
+            if ev[0] == "loc":
+                locs[ev[1]] = "POINTS" if locs[ev[1]] == "CELLS" else "CELLS"
+                objs[ev[1]].data_location = locs[ev[1]]
+                continue
+            kind, a, b = ev
+            out = hist_link(kind, objs[a], objs[b])
+            key = (kind, a, b, locs[a], locs[b])
+            if key not in fresh_memo:
+                fresh_memo[key] = hist_link(kind, pool_grid(a, locs[a]), pool_grid(b, locs[b]))
+            want_rule = "ok" if locs[a] == locs[b] else "meta"
+            res["n"] += 1
+            cnt["hist_link_" + out[0]] = cnt.get("hist_link_" + out[0], 0) + 1
+            if k > 0 and any(e[0] == "loc" for e in seq[:k]):
+                res["nontrivial"] += 1
+            bad = None
+            if out != fresh_memo[key]:
+                bad = ("history_changes_outcome", f"with history {out}, on fresh grid objects in the same state {fresh_memo[key]}")
+            elif out[0] != want_rule:
+                bad = ("accepted_but_ends_conflict" if out[0] == "ok" else "rejected_but_ends_agree" if out[0] == "meta" else "non_metadata_exception", f"{out}, data locations {locs[a]} vs {locs[b]}")
+            if bad:
+                res["violations"].append(viol(dict(kind="metadata", clause=bad[0], via="grid_objects_with_history:" + kind), f"history {seq[:k + 1]} (grids {POOL} start on CELLS, 'loc' toggles the data location through the public setter): {bad[1]}", dict(hist=True, first=case["first"], depth=case["depth"], only=list(tail))))
+                break
+        if len(res["violations"]) >= 3:
+            break
+    res["sample"] = dict(history=[list(e) for e in seq])
+    return res
+
+
 def replay(case):
+    if case.get("hist"):
+        return run_hist(case)["violations"]
     return run_case(case)["violations"]
 
 
@@ -605,13 +696,18 @@ def run(tier, seed, agg):
     k = seed % len(cases)
     for r in pmap(run_case, cases[k:] + cases[:k]):
         agg.add(r)
+    hcases = [dict(hist=True, first=i, depth=3 if tier == "quick" else 4) for i in range(len(hist_events()))]
+    for r in pmap(run_hist, hcases[k % len(hcases):] + hcases[:k % len(hcases)]):
+        agg.add(r)
     return dict(
         level="exploration",
         rule="producer/consumer field states enumerated as complete sub-products: grid{unset,NoGrid,G,G re-laid-out,G other location,other geometry}^2 x mask{unset,FLEX,NONE,nomask,M,M'}^2; time{unset,set}^2 x units{unset,m,km,s}^2 x extra key{absent,unset,v,w}^2; "
         "structured grids in five orientations/axis orders + four rectilinear node sets (equal extent, other interior nodes; downwards axis) x masks{FLEX, empty, physical set, fixed index array}, with cell centres and hidden locations computed here from the layout rules; "
         "grid^2 x units^2 x producer time; two consumers per output (12 producer x 12^2 consumer states, three listing orders); GridToValue / ValueToGrid / SumOverTime(per_time) links; link direct or through Scale; both listing orders; "
         "each run through the real Composition.connect. Oracle: an independent agree(producer, consumer) predicate; on success the input info is complete, describes the delivered locations, has convertible units and carries the other side's values for unset fields (both directions); "
-        "on conflict FinamMetaDataError and no data at any consumer. non-trivial = decided cases with at least one unset field",
+        "on conflict FinamMetaDataError and no data at any consumer. non-trivial = decided cases with at least one unset field. "
+        "Grid objects with a history: three persistent grid objects (two equal uniform grids, the same geometry as rectilinear grid) serve every sequence of 3 (thorough 4) events from {toggle the data location of one of them through the public setter, "
+        "link producer-on-X to consumer-on-Y directly / through Scale / through RegridNearest(in_grid=Y)} - each link a new composition connected in the same process; every attempt must end exactly like the same attempt on freshly built grids in the same state and follow the location rule",
         bound=dict(note="quick: complete sub-products; thorough: additionally the full 5-field product (time x grid x units x mask x extra key on both ends, 1.98 million combinations) on a direct link"),
         assumptions=["a producer whose mask is unset, NONE-vs-empty-mask pairs: not classified by the statement (either outcome accepted, crashes still reported)", "extra metadata conflicts (v vs w) are not 'grids, units or masks' and must not be rejected"],
     )
